@@ -174,7 +174,7 @@ static void do_call(int oid, std::string const& fn, int a, int b)
       int where = -1;
       for (int i = 0; i < 8; ++i) if (&rr == &H::slot(i)) where = i;
       if (&rr == &x) where = 100;
-      H::emit("V ref %d %d", rr, where);
+      H::emit("V ref %d %d %d", rr, where, x);
     }
     else H::emit("V nofn");
   }
